@@ -4,6 +4,7 @@ import FrappyProofs.Lemmas.ActivateLoss
 import FrappyProofs.Lemmas.ActivateQuiet
 import FrappyProofs.Lemmas.ActivateExplicit
 import FrappyProofs.Lemmas.ActivateTables
+import FrappyProofs.Lemmas.ActivateMatch
 import FrappyModel.Generated.C08
 /-
 C08 — property theorems (nothing but property theorems and their non-vacuity examples).
@@ -55,6 +56,27 @@ the positive reply to the matching `deactivate`; any reply to `*IDN?`; the end o
 theorem silent_after_deactivate_explicit (cfg : Cfg) (hs : Conn → List Req) (us : Nat → List (Mod × Par × Entry))
     (cache : Mod → Par → Entry) (σ : State) (h : Reach cfg (init hs us cache) σ) : SilentExplicit σ.trace :=
   (silent_iff_explicit σ.trace).1 (silent_after_deactivate cfg hs us cache σ h)
+
+/-- Replies answer requests: in every reachable trace a request marker of a connection appears only when none of its
+requests is open, and a reply to it carries the request whose marker is the last one of that connection. -/
+theorem replies_match (cfg : Cfg) (hs : Conn → List Req) (us : Nat → List (Mod × Par × Entry))
+    (cache : Mod → Par → Entry) (σ : State) (h : Reach cfg (init hs us cache) σ) : RepliesMatch σ.trace :=
+  (matchInv_reach cfg hs us cache σ h).acc
+
+/-- `snapshot_complete` without the monitor (`SnapshotExplicitS`, the index form of the English sentence): every update
+delivered at position `i` carries the value the cache holds after the first `i` events; and an `active` reply to
+`activate s` of connection `c` at position `i` has its request marker at some `j < i`, no other marker of `c` and no reply to
+`c` in between, and for every exported parameter of scope `s` an update delivered to `c` strictly between `j` and `i`. -/
+theorem snapshot_complete_explicit (cfg : Cfg) (hs : Conn → List Req) (us : Nat → List (Mod × Par × Entry))
+    (cache : Mod → Par → Entry) (σ : State) (h : Reach cfg (init hs us cache) σ) :
+    SnapshotExplicitS cfg cache σ.trace :=
+  snapshotExplicitS cfg cache σ.trace (snapshot_complete cfg hs us cache σ h) (replies_match cfg hs us cache σ h)
+
+/-- what the monitor accepts is what the sentence says, for any trace (model or implementation): the index form with the
+scope taken from the marker (`SnapshotExplicit`) follows from `SnapshotComplete` alone -/
+theorem snapshot_monitor_sound (cfg : Cfg) (cache : Mod → Par → Entry) (tr : List Obs)
+    (h : SnapshotComplete cfg cache tr) : SnapshotExplicit cfg cache tr :=
+  snapshotExplicit_of_complete cfg cache tr h
 
 /-- the executable quiescence test the driver uses is the `Quiet` of the specification -/
 theorem quiet_monitor_exact (tr : List Obs) : quietB tr = true ↔ Quiet tr := quietB_iff tr
@@ -208,6 +230,16 @@ example : ((run exCfg exInit2 exActs2).map (fun σ =>
       (quietB σ.trace, coveredBy (firmAfter σ.trace 1) mT pTarget, lastDelivered σ.trace 1 mT pTarget, σ.cache mT pTarget,
        finished σ (.h 1), finished σ (.u 1), σ.trace.length))) =
     some (true, true, some (.val 7), .val 7, true, true, 6) := by rfl
+
+/-- `snapshot_complete_explicit` / `replies_match` are about something: the reachable trace of `exActs2` has an `active`
+reply at position 2 (marker at 0, the snapshot item at 1) and a broadcast delivery at position 4 -/
+example : ((run exCfg exInit2 exActs2).map (fun σ => (σ.trace[0]?, σ.trace[1]?, σ.trace[2]?, σ.trace[4]?,
+      matchMon.accepts σ.trace, (snapMon exCfg (fun _ _ => .val 0)).accepts σ.trace))) =
+    some (some (.reqStart 1 (.activate (.par mT pTarget))), some (.deliver 1 mT pTarget (.val 0)),
+          some (.reply 1 (.activate (.par mT pTarget)) true), some (.deliver 1 mT pTarget (.val 7)), true, true) := by rfl
+
+/-- the match monitor is not trivially true: a reply that answers another request than the open one is rejected -/
+example : matchMon.accepts [.reqStart 1 (.activate .all), .reply 1 (.deactivate .all) true] = false := by decide
 
 /-- prefix-related parameters: connection 1 activates `T:target` and `T:target_max`, deactivates `T:target`; an update
 of `T:target_max` emitted afterwards still reaches it (the seeded `startswith(eventname)` mutant loses it) -/
